@@ -2,16 +2,22 @@ use crate::run::Suite;
 use std::path::Path;
 
 pub mod c21;
+pub mod c22;
+pub mod c34;
 
 pub fn for_property(p: &str) -> Vec<Suite> {
     match p {
         "C21" => c21::suites(),
+        "C22" => c22::suites(),
+        "C34" => c34::suites(),
         _ => vec![],
     }
 }
 
 /// Regenerate `Generated/*.lean` from the running implementation (only rewritten when changed).
-pub fn extract_all(_dir: &Path) {}
+pub fn extract_all(dir: &Path) {
+    c22::extract(dir);
+}
 
 #[allow(dead_code)]
 pub fn write_if_changed(path: &Path, content: &str) {
